@@ -165,4 +165,48 @@ def forChildren (tbl : Table) (k : Kind) (typ : String) (stanza : List Tok) (con
       | some p => calls ++ [{ pat := some p, view := stanza.take (cons.headD 0) }]
     else calls
 
+/-! ### histories on one multiplexer
+
+Options are exported functions and may be applied to a `ServeMux` after `New`; lookups and
+dispatches happen in between.  The model keeps nothing but the table: a lookup or dispatch
+leaves the state unchanged. -/
+
+inductive HOp
+  | reg (p : Pattern) (nilHandler : Bool)
+  | look (k : Kind) (typ : String) (n : Name)
+  /-- `HandleXMPP` on a top-level element named `n` -/
+  | disp (n : Name)
+  deriving Repr
+
+inductive HRes
+  | regOk | regPanic
+  | found (p : Pattern) | notFound
+  | router | nop
+  deriving DecidableEq, Repr
+
+/-- state after one operation -/
+def histStep (tbl : Table) : HOp → Table
+  | .reg p nl => (register tbl p nl).getD tbl
+  | _ => tbl
+
+/-- observable result of one operation on a multiplexer with table `tbl` -/
+def histRes (ns : String) (tbl : Table) : HOp → HRes
+  | .reg p nl => if (register tbl p nl).isSome then .regOk else .regPanic
+  | .look .top _ n | .disp n =>
+    (match route tbl ns n with
+     | .handler p => .found p
+     | .nop => .nop
+     | _ => .router)
+  | .look k typ n =>
+    (match lookup tbl k typ n with
+     | some p => .found p
+     | none => .notFound)
+
+def runHist (ns : String) : Table → List HOp → List HRes
+  | _, [] => []
+  | tbl, op :: ops => histRes ns tbl op :: runHist ns (histStep tbl op) ops
+
+/-- the table after a history -/
+def tableAfter (tbl : Table) (ops : List HOp) : Table := ops.foldl histStep tbl
+
 end XmppModel.Mux
